@@ -31,6 +31,7 @@ sys.unraisablehook = _unraisable
 
 ARG = {"bad": tasks.BadArg, "exit": tasks.ExitAtPickle, "huge": tasks.HugeArg,
        "index": tasks.IndexErrArg, "key": tasks.KeyErrArg}
+ARG.update(tasks.EXC_ARG_CLASSES)
 
 
 class Record:
@@ -60,16 +61,24 @@ KILL_FILTERS = {
 }
 
 
+def _kill_filter(kill_when):
+    if kill_when is not None and kill_when.startswith("in:"):
+        # kills only while a parent thread executes the named loky function
+        fn = kill_when[3:]
+        return lambda s, p: s._parent_in(fn)
+    return KILL_FILTERS[kill_when]
+
+
 def run_program(prog, prefix=(), kinds=("P", "T", "K"), kill_code=-9, track_states=True,
                 monitors=(), horizon=50_000, kill_when=None, starve=None, p_scope=None,
                 t_scope=None, t_when=None, p_when=None, t_cur=None,
-                zero_when=None):
+                zero_when=None, lines=None):
     pool = prog.get("pool", {})
     S = K.Sched(prefix, kinds=kinds, kill_code=kill_code, horizon=horizon,
                 pipe_cap=pool.get("pipe_cap", 65536), track_states=track_states,
-                kill_filter=KILL_FILTERS[kill_when], starve=starve, p_scope=p_scope,
+                kill_filter=_kill_filter(kill_when), starve=starve, p_scope=p_scope,
                 t_scope=t_scope, t_when=t_when, p_when=p_when, t_cur=t_cur,
-                zero_when=zero_when)
+                zero_when=zero_when, lines=lines)
     K.S = S
     tasks.reset()
     gc_was = gc.isenabled()
@@ -116,6 +125,7 @@ def run_program(prog, prefix=(), kinds=("P", "T", "K"), kill_code=-9, track_stat
             users.append(t)
         started = False
         ops0 = prog["threads"][0]
+        explicit = any(op[0] == "start_users" for op in ops0)
         # user threads start right after the ["new"] op of thread 0 (or at once)
         for oi, op in enumerate(ops0):
             entry = {"t": 0, "i": oi, "op": op, "returned": False, "exc": None}
@@ -130,7 +140,8 @@ def run_program(prog, prefix=(), kinds=("P", "T", "K"), kill_code=-9, track_stat
                 entry["exc"] = _summ_exc(e)
                 r = None
                 del e
-            if not started and (op[0] in ("new", "reuse") or oi == len(ops0) - 1):
+            if not started and ((op[0] in ("new", "reuse") and not explicit)
+                                or op[0] == "start_users" or oi == len(ops0) - 1):
                 started = True
                 for t in users:
                     t.start()
@@ -164,6 +175,31 @@ def run_program(prog, prefix=(), kinds=("P", "T", "K"), kill_code=-9, track_stat
     return rec
 
 
+def _iterables(lens, shape):
+    """Fresh iterables for one map() call (built again for the reference builtin map)."""
+    lists = [list(range(i * 100, i * 100 + n)) for i, n in enumerate(lens)]
+    if shape == "list":
+        return lists
+    if shape == "iter":
+        return [iter(x) for x in lists]
+    if shape == "alias":
+        it = iter(list(range(sum(lens) + len(lens))))
+        return [it] * len(lens)
+    if shape == "dep":
+        taken = [0]
+
+        def counted(xs):
+            for x in xs:
+                taken[0] += 1
+                yield x
+
+        def dependent(n):
+            for _ in range(n):
+                yield taken[0] * 1000
+        return [counted(lists[0])] + [dependent(n) for n in lens[1:]]
+    raise ValueError(shape)
+
+
 def _pool_kwargs(w, pool):
     kw = {}
     if pool.get("init") == "ok":
@@ -187,6 +223,8 @@ def do_op(ctx, op, entry):
                                            timeout=pool.get("timeout"), **kw)
         ctx["e"] = e
         del e
+    elif name == "start_users":
+        pass
     elif name == "reuse":
         kw = dict(op[1])
         if kw.pop("init", None) == "ok":
@@ -240,7 +278,7 @@ def do_op(ctx, op, entry):
             f = e.submit(tasks.unpicklable_result, key)
         elif kind == "bad_unpickle_result":
             f = e.submit(tasks.bad_unpickle_result, key)
-        elif kind in ("bad_arg", "exit_arg", "huge_arg", "index_arg", "key_arg"):
+        elif kind.endswith("_arg") and kind[:-4] in ARG:
             f = e.submit(tasks.ident, key, ARG[kind.split("_")[0]]())
         elif kind == "bad_unpickle_arg":
             f = e.submit(tasks.ident, key, tasks.FailsToUnpickle())
@@ -252,6 +290,8 @@ def do_op(ctx, op, entry):
             f = e.submit(tasks.ident, key, tasks.SlowBadArg(*a))
         elif kind == "leak":
             f = e.submit(tasks.leak, key)
+        elif kind == "spawn_child":
+            f = e.submit(tasks.spawn_child, key, *a)
         else:
             raise ValueError(kind)
         del e
@@ -339,7 +379,8 @@ def do_op(ctx, op, entry):
     elif name == "map":
         key, fn, chunksize, lens = op[1], op[2], op[3], op[4]
         e = ctx["e"]
-        its = [list(range(i * 100, i * 100 + n)) for i, n in enumerate(lens)]
+        shape = op[5] if len(op) > 5 else "list"
+        its = _iterables(lens, shape)
         it = e.map(getattr(tasks, fn), *its, chunksize=chunksize)
         del e
         try:
@@ -349,7 +390,7 @@ def do_op(ctx, op, entry):
         except BaseException as ex:
             entry["value"] = ("exc",) + _summ_exc(ex)
             del ex
-        entry["expect"] = list(map(getattr(tasks, fn), *its))
+        entry["expect"] = list(map(getattr(tasks, fn), *_iterables(lens, shape)))
     elif name == "kill":
         S.point(label="ext.kill")
         ws = [p for p in S.procs.values() if p.label.startswith("worker#") and p.alive]
@@ -368,6 +409,11 @@ def do_op(ctx, op, entry):
         n = op[1]
         r = S.point(lambda: _inside_total(S) == n, 3600.0, label="expect_inside")
         entry["value"] = _inside_total(S)
+        e = ctx["e"]
+        hh = [h for h in w.execs if h["ref"]() is e]
+        entry["queue_size"] = hh[0]["queue_size"] if hh else None
+        entry["cpus"] = pool.get("cpu_count", 2)
+        del e, hh
     elif name == "submit_expect":
         # a submit that is expected to raise (after shutdown / on a broken pool)
         e = ctx["e"]
@@ -471,6 +517,8 @@ def harvest(rec, S, w, verdict):
                       depth_seen=(p.info.get("globals") or {}).get("_CURRENT_DEPTH"),
                       kill_phase=p.info.get("kill_phase"))
                  for p in S.procs.values() if p.label.startswith("worker#")]
+    rec.descendants = [dict(label=p.label, alive=p.alive) for p in S.procs.values()
+                       if p.label.startswith("desc#")]
     parent = S.procs[K.PARENT_PID]
     rec.parent_fds = sorted(parent.fds)
     rec.parent_fd_kinds = {fd: (e[0].id, e[1]) for fd, e in parent.fds.items()}
